@@ -250,6 +250,7 @@ def run(ctx):
         if ans is not None:
             ctx.compare("MultiRef.process", meta, real, strip_ids(ans))
     jagged_and_dangling(ctx)
+    lean_writer_roundtrip(ctx)
     # a reference that dangles in this reply stays dangling, whatever earlier replies on the same client defined
     head = ('<e:Envelope xmlns:e="%s" xmlns:xsi="%s" xmlns:xsd="%s" xmlns:soapenc="%s" xmlns:x="%s"><e:Body>'
             '<m:fResponse xmlns:m="%s"><return xsi:type="x:Person"><name xsi:type="xsd:string">N</name>'
@@ -296,6 +297,52 @@ def kf_unmarked_before(f, k):
 
 
 CLASSIFIERS = {"c18_unmarked_multiref_first": kf_unmarked_before}
+
+
+def lean_writer_roundtrip(ctx):
+    """The writer of the theorem outlined_body_decodes (Lean: Elem.outline / mkRef) applied to random inline content,
+    its output handed to the REAL MultiRef.process: the implementation gives back what the theorem says (the inline
+    content, out-lined nodes carrying the soapenc:root marker), and what the model's process gives."""
+    from harness.props import c19
+    from suds.bindings.multiref import MultiRef
+    rng = ctx.rng
+
+    def gen(depth, counter):
+        counter[0] += 1
+        n = {"id": counter[0], "name": rng.choice(["a", "b", "item"]), "pfx": None, "expns": None, "nsp": [],
+             "attrs": [[None, k, rng.choice(["v", "x y", ""])] for k in rng.sample(["k", "v", "w"], rng.randint(0, 2))],
+             "text": rng.choice([None, "t", "x y"]), "kids": []}
+        if depth > 0:
+            n["kids"] = [gen(depth - 1, counter) for _ in range(rng.choice([0, 1, 2, 3]))]
+            if n["kids"]:
+                n["text"] = None
+        return n
+
+    def ids_of(n):
+        return [n["id"]] + [i for k in n["kids"] for i in ids_of(k)]
+    reqs, metas = [], []
+    for _ in range(ctx.pick(150, 3000)):
+        counter = [1]
+        roots = [gen(3, counter)]
+        body = {"id": 1, "name": "Body", "pfx": None, "expns": None, "nsp": [["soapenc", ENC]], "attrs": [], "text": None,
+                "kids": roots}
+        inner = [i for r in roots for i in ids_of(r)][1:]           # the response element itself stays in place
+        chosen = sorted(rng.sample(inner, rng.randint(0, min(4, len(inner))))) if inner else []
+        reqs.append({"op": "multiref.outline", "tree": body, "outlined": chosen, "marked": True, "fuel": 40})
+        metas.append({"stream": "lean-writer", "inline": body, "outlined": chosen})
+    for meta, ans in zip(metas, ctx.driver.ask(reqs)):
+        if ans is None:
+            continue
+        ctx.case(common.canon({"inline": meta["inline"], "outlined": meta["outlined"]}), bool(meta["outlined"]))
+        ctx.dist["lean-writer:outlined=%d" % min(len(meta["outlined"]), 4)] += 1
+        world = c19.World()
+        real_body = c19.build(world, ans["body"])
+        MultiRef().process(real_body)
+        real = struct_dump(real_body)
+        ctx.compare("MultiRef.process(lean writer)", meta, real, strip_ids(ans["processed"]))
+        if real != strip_ids(ans["expected"]):
+            ctx.fail("resolution of the theorem's writer output does not give back the inline content", meta, real,
+                     strip_ids(ans["expected"]))
 
 
 def leaves(x):
